@@ -47,6 +47,8 @@ class ExpressionSolver:
 
     def solve(self, expr:Union[str,Expression]):
         self.expr = Expression(expr) if isinstance(expr, str) else expr
+        # start from empty token buffers: a previous solve() that raised may have left tokens behind
+        self.tokens = Tokens(self.tokens.atom)
         
         # Tokenize expression
         while self.expr.right:
